@@ -383,7 +383,7 @@ CLAIMED.update({
                   "column bookkeeping is compared with the number of source characters consumed; counterexamples are replayed on the real lexer (cargo test, catch_unwind)",
         category="other",
         text="Kernel-level partial claim on 'the lexer is total and reports faithful token positions': for single-line string literals (the scanner entered after the opening quote; "
-             "k <= 3 characters quick, <= 4 thorough, every Unicode scalar value for each, then the end of the input) (a) no path panics - in particular not when the input ends "
+             "k <= 3 characters quick, <= 5 thorough, every Unicode scalar value for each, then the end of the input) (a) no path panics - in particular not when the input ends "
              "inside an escape sequence - and (b) whenever a token is returned it starts at the opening quote's column and the lexer's column afterwards has advanced by exactly the "
              "number of source characters consumed, whatever escape sequences the literal contains; (c) multi-line literals (entered after the three opening quotes) do not panic either. "
              "All other token kinds, the columns and lines of multi-line literals, interpolated-continuation strings (lex_interpolation_mid), indentation, comments and the token iterator are not decided.",
